@@ -263,9 +263,9 @@ func (n *nodeRT) compute(ctx context.Context, ctl *RunCtl, e *Exec, in any) (out
 	}
 	switch ctl.Faults[n.key] {
 	case FailSentinel:
-		return nil, fmt.Errorf("node %s wraps: %w", n.key, ErrSentinel)
+		return nil, ctl.faultErr(fmt.Errorf("node %s wraps: %w", n.key, ErrSentinel))
 	case FailCustom:
-		return nil, &CustomErr{Node: n.key}
+		return nil, ctl.faultErr(&CustomErr{Node: n.key})
 	case PanicString:
 		panic("verif-panic@" + n.key)
 	case PanicError:
@@ -278,11 +278,11 @@ func (n *nodeRT) compute(ctx context.Context, ctl *RunCtl, e *Exec, in any) (out
 		// reports errors as one error item) fail with a plain error; S and the synchronous T put the
 		// error item in the middle of their output (see emit)
 		if e.Para == "I" || e.Para == "C" || (e.Para == "T" && n.spec.Lazy) {
-			return nil, fmt.Errorf("node %s mid-stream: %w", n.key, ErrSentinel)
+			return nil, ctl.faultErr(fmt.Errorf("node %s mid-stream: %w", n.key, ErrSentinel))
 		}
 	case PanicConverter:
 		if e.Para == "I" || e.Para == "C" || (e.Para == "T" && n.spec.Lazy) {
-			return nil, fmt.Errorf("node %s wraps: %w", n.key, ErrSentinel)
+			return nil, ctl.faultErr(fmt.Errorf("node %s wraps: %w", n.key, ErrSentinel))
 		}
 	}
 	switch n.spec.Kind {
@@ -389,7 +389,7 @@ func emit[T any](n *nodeRT, ctl *RunCtl, chunks []T) *schema.StreamReader[T] {
 	var midErr error
 	errAt := 0
 	if ctl.Faults[n.key] == FailMidStream {
-		midErr = fmt.Errorf("node %s mid-stream: %w", n.key, ErrSentinel)
+		midErr = ctl.faultErr(fmt.Errorf("node %s mid-stream: %w", n.key, ErrSentinel))
 		errAt = len(chunks) / 2
 	}
 	if n.spec.PipeCap < 0 && midErr == nil {
@@ -605,6 +605,7 @@ func verifRenameForward(ctx context.Context, n *nodeRT, ctl *RunCtl, e *Exec, p 
 				if f == FailCustom {
 					ferr = &CustomErr{Node: n.key}
 				}
+				ferr = ctl.faultErr(ferr)
 				ctl.Log.finish(e, "", ferr)
 				sw.Send(nil, ferr)
 				ctl.Log.updProducer(func() { p.Finished = true })
